@@ -54,21 +54,26 @@ type podRec struct {
 func (p *podRec) live() bool { return p.Exists && p.TerminalAt.IsZero() }
 
 type jobRec struct {
-	UID        string
-	Name, NS   string
-	Versions   int
-	UserEdited bool
-	Refused    bool // admission-error annotation written by the queue controller while unstarted
-	RefusedBy  string
-	StartedAt  time.Time
-	FinishedAt time.Time // clock reading when the finished condition was first persisted
-	Removed    bool
-	KillSetAt  time.Time
-	LastObj    *execution.Job
-	JCUID      string
-	Pods       []*podRec
-	ForeignHit bool // a non-owned object occupies one of its task names
-	CtrlRV     int  // resourceVersion of the latest version written by the job controller itself
+	UID                   string
+	Name, NS              string
+	Versions              int
+	UserEdited            bool
+	UserEditedAfterFinish bool      // the user wrote to the Job's main resource after it had finished
+	KillTS                time.Time // the kill time the user asked for (kept when the field is cleared later)
+	KillCleared           bool
+	Refused               bool // admission-error annotation written by the queue controller while unstarted
+	RefusedBy             string
+	StartedAt             time.Time
+	FinishedAt            time.Time // clock reading when the finished condition was first persisted
+	Removed               bool
+	KillSetAt             time.Time
+	LastObj               *execution.Job
+	JCUID                 string
+	Pods                  []*podRec
+	ForeignHit            bool // a non-owned object occupies one of its task names
+	CtrlRV                int  // resourceVersion of the latest version written by the job controller itself
+	// the user removed the delete-dependents finalizer: whatever happens to the tasks afterwards is the user's doing
+	FinalizerStripped bool
 }
 
 // Monitors holds the online oracles of all simulation-decided properties.
@@ -91,11 +96,13 @@ type Monitors struct {
 	Notes     []string
 	foreign   map[string]bool
 	// cron: requests per key, scheduled JobConfigs with their reference stream
-	reqCount    map[string]int
-	DupRequests int // schedule keys requested at least twice (any incarnation, incl. injected duplicates)
-	cronJCs     map[string]*cronJC
-	bootSnap    map[int]map[string]bootJC // incarnation -> JobConfig key -> persisted state at boot
-	Injecting   bool                      // the harness itself is re-delivering a schedule request
+	reqCount        map[string]int
+	DupRequests     int // schedule keys requested at least twice (any incarnation, incl. injected duplicates)
+	cronJCs         map[string]*cronJC
+	bootSnap        map[int]map[string]bootJC // incarnation -> JobConfig key -> persisted state at boot
+	queueSyncBehind map[string]bool           // JobConfig key -> the latest queue sync ran ahead of the store notifications
+	lastSchedHWM    map[string]time.Time      // JobConfig uid -> latest status.lastScheduled ever persisted
+	Injecting       bool                      // the harness itself is re-delivering a schedule request
 	// JobConfigs (uid) for which a start write was applied but reported as a timeout to the queue controller
 	timedOutStart map[string]bool
 	// non-triviality measures
@@ -304,6 +311,9 @@ func (m *Monitors) onBoot(inc *Incarnation) {
 		if jc.Status.LastScheduled != nil {
 			b.LastScheduled = jc.Status.LastScheduled.Time
 		}
+		if h := m.lastSchedHWM[string(jc.UID)]; h.After(b.LastScheduled) {
+			b.LastScheduled = h
+		}
 		snap[jc.Namespace+"/"+jc.Name] = b
 	}
 	m.bootSnap[inc.N] = snap
@@ -311,13 +321,26 @@ func (m *Monitors) onBoot(inc *Incarnation) {
 
 type bootJC struct {
 	UID           string
-	LastScheduled time.Time
+	LastScheduled time.Time // the latest last-scheduled time ever persisted for the JobConfig (a high-water mark: C15 forbids it to decrease)
 }
+
 func (m *Monitors) onCrash(inc *Incarnation) {}
-func (m *Monitors) onTaskStart(t *Task)      {}
-func (m *Monitors) onTaskDone(t *Task)       {}
-func (m *Monitors) beforeTick()              {}
-func (m *Monitors) afterTick()               {}
+
+// onTaskStart notes, for a sync of the per-JobConfig queue reconciler, whether the active-job
+// store (the first listener of the Job informer) still had undelivered notifications: the
+// sync then reads a counter that is about to change, and nothing wakes the queue afterwards.
+func (m *Monitors) onTaskStart(t *Task) {
+	if t.Ctl.Name != "queue-perconfig" {
+		return
+	}
+	if m.queueSyncBehind == nil {
+		m.queueSyncBehind = map[string]bool{}
+	}
+	m.queueSyncBehind[fmt.Sprint(t.Item)] = t.Inc.Ctx.Inf.Job.ListenerPending(0) > 0
+}
+func (m *Monitors) onTaskDone(t *Task) {}
+func (m *Monitors) beforeTick()        {}
+func (m *Monitors) afterTick()         {}
 
 func (m *Monitors) nextCronDue() (time.Time, bool) {
 	// scheduled JobConfigs make the next whole CronStep boundary a timer
@@ -637,6 +660,9 @@ func (m *Monitors) podCreated(ev *Event, p *corev1.Pod, juid string) {
 		if sat, unsat := m.viewDecided(m.w.current, vj); sat || unsat {
 			m.fail("C08", "create-after-complete"+staleSuffix, "task %s created although the strategy was already decided in what the reconcile read (satisfied=%v unsatisfiable=%v)", p.Name, sat, unsat)
 		}
+	}
+	if jr.KillCleared && !jr.KillTS.IsZero() && !now.Before(jr.KillTS) {
+		m.fail("C12", "task-created-after-kill-time-passed", "task %s created at %v although the Job's kill time %v had passed (the kill timestamp was removed from the spec afterwards)", p.Name, now.Sub(Epoch), jr.KillTS.Sub(Epoch))
 	}
 	if jr.Refused {
 		m.fail("C06", "refused-job-ran", "task %s created for Job %s which was refused admission by the queue controller", p.Name, j.Name)
@@ -984,15 +1010,37 @@ func (m *Monitors) onJob(ev *Event) {
 	old := ev.Old.(*execution.Job)
 	if ev.Actor == "user" {
 		jr.UserEdited = true
+		if old.Status.Condition.Finished != nil {
+			jr.UserEditedAfterFinish = true
+		}
+		if old.Spec.KillTimestamp != nil && j.Spec.KillTimestamp == nil && now.After(old.Spec.KillTimestamp.Time) {
+			jr.KillCleared = true // removed although it had passed (admission must refuse this)
+		}
+		had, has := false, false
+		for _, f := range old.Finalizers {
+			had = had || f == Finalizer
+		}
+		for _, f := range j.Finalizers {
+			has = has || f == Finalizer
+		}
+		if had && !has {
+			jr.FinalizerStripped = true
+		}
 	}
 	if j.Spec.KillTimestamp != nil && jr.KillSetAt.IsZero() {
 		jr.KillSetAt = now
+	}
+	if j.Spec.KillTimestamp != nil {
+		jr.KillTS = j.Spec.KillTimestamp.Time
 	}
 	if ev.Type == Deleted {
 		jr.Removed = true
 		jr.LastObj = j
 		m.Evals["C13"]++
 		for _, o := range m.w.API.peek(KPod) {
+			if jr.FinalizerStripped {
+				break
+			}
 			p := o.(*corev1.Pod)
 			if p.Namespace != j.Namespace {
 				continue
@@ -1012,6 +1060,17 @@ func (m *Monitors) onJob(ev *Event) {
 			}
 		}
 		return
+	}
+	if old.Status.Phase != j.Status.Phase {
+		res := ""
+		if f := j.Status.Condition.Finished; f != nil {
+			res = " result=" + string(f.Result)
+		}
+		var ts []string
+		for _, t := range j.Status.Tasks {
+			ts = append(ts, fmt.Sprintf("%s=%s/%s", strings.TrimPrefix(t.Name, j.Name+"-"), t.Status.State, t.Status.Result))
+		}
+		m.w.trace("  job %s phase %s -> %s%s tasks %v by %s %s (maxAttempts %d, anySuccessful %v, deleting %v)", j.Name, old.Status.Phase, j.Status.Phase, res, ts, ev.Actor, ev.Verb, maxAttempts(j), isAny(j), j.DeletionTimestamp != nil)
 	}
 	m.checkJobTransition(ev, jr, old, j)
 	jr.LastObj = j
@@ -1039,6 +1098,9 @@ func (m *Monitors) checkJobTransition(ev *Event, jr *jobRec, old, j *execution.J
 		pol := execution.ConcurrencyPolicy("")
 		if j.Spec.StartPolicy != nil {
 			pol = j.Spec.StartPolicy.ConcurrencyPolicy
+		}
+		if sp := j.Spec.StartPolicy; sp != nil && sp.StartAfter != nil && now.Before(sp.StartAfter.Time) {
+			m.fail("C07", "refused-before-due", "Job %s was refused admission by the queue controller at %v although it is not due before %v: the concurrency policy is to be evaluated when the Job becomes due", j.Name, now.Sub(Epoch), sp.StartAfter.Sub(Epoch))
 		}
 		if pol != execution.ConcurrencyPolicyForbid {
 			m.fail("C06", "non-forbid-refused", "Job %s with policy %q was refused admission by the queue controller", j.Name, pol)
@@ -1119,7 +1181,7 @@ func (m *Monitors) checkJobTransition(ev *Event, jr *jobRec, old, j *execution.J
 	if !old.Status.StartTime.IsZero() && !old.Status.StartTime.Equal(j.Status.StartTime) {
 		m.fail("C11", "startTime-changed", "Job %s start time changed from %v to %v (writer %s %s)", j.Name, old.Status.StartTime, j.Status.StartTime, ev.Actor, ev.Verb)
 	}
-	exempt := jr.UserEdited || j.DeletionTimestamp != nil
+	exempt := jr.UserEditedAfterFinish || j.DeletionTimestamp != nil
 	if of := old.Status.Condition.Finished; of != nil {
 		nf := j.Status.Condition.Finished
 		if nf == nil {
@@ -1331,6 +1393,14 @@ func (m *Monitors) jobCreated(ev *Event, j *execution.Job) {
 func (m *Monitors) onJobConfig(ev *Event) {
 	jc := ev.Object.(*execution.JobConfig)
 	m.trackCron(ev, jc)
+	if ls := jc.Status.LastScheduled; ls != nil {
+		if m.lastSchedHWM == nil {
+			m.lastSchedHWM = map[string]time.Time{}
+		}
+		if ls.Time.After(m.lastSchedHWM[string(jc.UID)]) {
+			m.lastSchedHWM[string(jc.UID)] = ls.Time
+		}
+	}
 	m.abstract(fmt.Sprintf("%s|%s|jc|%s|a%dq%d", actorClass(ev.Actor), ev.Verb, ev.Type, jc.Status.Active, jc.Status.Queued))
 	if ev.Type == Modified {
 		old := ev.Old.(*execution.JobConfig)
@@ -1458,8 +1528,8 @@ func (m *Monitors) Fixpoint() {
 	cfg := m.jobCfg()
 	for _, c := range w.Inc.Ctls {
 		m.Evals["C20_requeue"]++
-		if c.Q.MaxRequeue > 40 {
-			m.fail("C20", "endless-retry", "an item of the %s queue was re-queued with back-off %d times in a row", c.Name, c.Q.MaxRequeue)
+		if n, item := c.Q.PendingRequeues(); n > 40 {
+			m.fail("C20", "endless-retry", "item %v of the %s queue is still being retried at the end of the run, after %d failed syncs in a row", item, c.Name, n)
 		}
 	}
 	for _, o := range jobs {
@@ -1488,10 +1558,14 @@ func (m *Monitors) Fixpoint() {
 				}
 				var max int64 = 1
 				found := false
+				suffix := ""
 				for _, x := range w.API.List(KJobConfig) {
 					if jc := x.(*execution.JobConfig); string(jc.UID) == jr.JCUID {
 						max = jc.Spec.Concurrency.GetMaxConcurrency()
 						found = true
+						if m.queueSyncBehind[jc.Namespace+"/"+jc.Name] {
+							suffix = ":store-notified-after-queue-sync"
+						}
 					}
 				}
 				if !found {
@@ -1501,7 +1575,7 @@ func (m *Monitors) Fixpoint() {
 					if j.Spec.StartPolicy != nil && j.Spec.StartPolicy.StartAfter != nil {
 						prop = "C07"
 					}
-					m.fail(prop, "due-job-stuck", "Job %s (%s) is still queued at the fixpoint with %d active Jobs of its JobConfig (maxConcurrency %d)", j.Name, pol, active, max)
+					m.fail(prop, "due-job-stuck"+suffix, "Job %s (%s) is still queued at the fixpoint with %d active Jobs of its JobConfig (maxConcurrency %d)", j.Name, pol, active, max)
 				}
 			}
 		}
@@ -1602,7 +1676,7 @@ func (m *Monitors) Fixpoint() {
 	}
 	// C13: no orphaned tasks of removed Jobs; C12: no alive tasks of finished jobs
 	for _, jr := range m.jobs {
-		if !jr.Removed {
+		if !jr.Removed || jr.FinalizerStripped {
 			continue
 		}
 		for _, r := range jr.Pods {
